@@ -60,7 +60,7 @@ def rust_str(s):
 
 
 class Variant:
-    __slots__ = ("ident", "lit", "rename", "attrs", "value")
+    __slots__ = ("ident", "lit", "rename", "attrs", "value", "rename_form")
 
     def __init__(self, ident, lit=None, rename=None, attrs=()):
         self.ident = ident
@@ -68,6 +68,7 @@ class Variant:
         self.rename = rename    # None or str
         self.attrs = list(attrs)
         self.value = None       # filled by evaluate()
+        self.rename_form = "#[enum_tools(rename = %s)]"
 
     @property
     def name(self):
@@ -100,7 +101,12 @@ def parse_rust_int(text):
 
 
 class EnumDecl:
-    def __init__(self, repr_, variants, name="E", vis="pub", enum_attrs=(), tag=None):
+    def __init__(self, repr_, variants, name="E", vis="pub", enum_attrs=(), tag=None, attrs_pre=(), attrs_post=(),
+                 repr_attr=None):
+        self.attrs_pre = list(attrs_pre)     # attribute lines before #[derive]
+        self.attrs_post = list(attrs_post)   # attribute lines after #[repr]/#[enum_tools]
+        self.repr_attr = repr_attr           # how the repr attribute is written (default #[repr(R)])
+        self.extra_derives = None            # e.g. "Clone, Copy, Default" (default: Clone, Copy only)
         self.repr = repr_
         self.variants = variants
         self.name = name
@@ -159,21 +165,25 @@ class EnumDecl:
                repr_first=False):
         """attr_lines: list of strings, each the inside of one #[enum_tools(...)] attribute."""
         out = []
-        out.append("%s#[derive(%s, %s)]" % (indent, extra_derives, derive))
+        for a in self.attrs_pre:
+            out.append(indent + a)
+        out.append("%s#[derive(%s, %s)]" % (indent, self.extra_derives or extra_derives, derive))
         attrs = ["#[enum_tools(%s)]" % a for a in attr_lines]
-        rep = "#[repr(%s)]" % self.repr
+        rep = self.repr_attr or "#[repr(%s)]" % self.repr
         lines = ([rep] + attrs) if repr_first else (attrs + [rep])
         for a in self.enum_attrs:
             out.append(indent + a)
         for l in lines:
             out.append(indent + l)
+        for a in self.attrs_post:
+            out.append(indent + a)
         out.append("%s%s enum %s {" % (indent, self.vis + " " if self.vis else "", self.name))
-        for v in self.variants:
+        for v in getattr(self, "variants_render", None) or self.variants:
             pre = ""
             for a in v.attrs:
-                pre += a + " "
+                pre += a + (" " if not a.startswith("//") else "\n" + indent + "    ")
             if v.rename is not None:
-                pre += "#[enum_tools(rename = %s)] " % rust_str(v.rename)
+                pre += v.rename_form % rust_str(v.rename) + " "
             if v.lit is None:
                 out.append("%s    %s%s," % (indent, pre, v.ident))
             else:
